@@ -278,3 +278,51 @@ Example calendar_hypotheses_nonvacuous :
 Proof.
   unfold wf, valid. repeat split; try discriminate; try reflexivity; cbn; lia.
 Qed.
+
+(** ** Tie to the regenerated routing of an input
+
+    coq/gen/GuardsInput.v is re-emitted on every run from the Python text of Holder.__init__
+    ([gen_holder_eternal]), Holder.set_input ([gen_holder_set_input]: period mismatch /
+    ignored / the variable's set_input rule / _set), Holder._to_array ([gen_to_array_rejects],
+    the length test), Holder._set ([gen_holder_set_guard], the tests before the storage) and
+    Simulation.set_input ([gen_sim_set_input_ignored], the [end] short-cut) by
+    harness/gen_tables.py (fail-closed).  coq/model/GuardsInputSem.v re-assembles [_set],
+    [holder_set_input] and [sim_set_input] from these pieces; they are the functions of
+    coq/model/SetInput.v that the theorems above are about. *)
+From Verif Require Import GuardsTypes GuardsInput GuardsInputSem GuardsInputProofs.
+
+Theorem source_set_input_guards_are_model_guards :
+  (forall v, eternal v = gen_holder_eternal (v_def v))
+  /\ (forall v n h p a,
+        _set v n h p a
+        = if gen_to_array_rejects (Z.of_nat (length a)) n then Err EValue
+          else match gen_holder_set_guard (gen_holder_eternal (v_def v)) false
+                                          (v_def v) (p_unit p) (p_size p) with
+               | SGValueError => Err EValue
+               | SGMismatch => Err EMismatch
+               | SGOk => Ok (put h (storage_key v p) (map (cast (v_type v)) a))
+               end)
+  /\ (forall v n h P a,
+        holder_set_input v n h P a
+        = match gen_holder_set_input (p_unit P) (gen_holder_eternal (v_def v)) false (has_rule v) with
+          | SOMismatch => Err EMismatch
+          | SOIgnored => Ok h
+          | SORule =>
+              match v_rule v with
+              | RDivide => set_input_divide_by_period v n h P a
+              | RDispatch => set_input_dispatch_by_period v n h P a
+              | RNone => _set v n h P a
+              end
+          | SOSet => _set v n h P a
+          end)
+  /\ (forall v n h P a, unit_eqb (p_unit P) Eternity = false ->
+        sim_set_input v n h P a
+        = if gen_sim_set_input_ignored (match v_end v with Some _ => true | None => false end)
+               (match v_end v with Some e => date_ltb e (p_start P) | None => false end)
+          then Ok h
+          else holder_set_input v n h P a).
+Proof.
+  exact (conj (fun v => eq_sym (gen_holder_eternal_is_model v))
+        (conj set_is_source (conj holder_set_input_is_source sim_set_input_is_source))).
+Qed.
+Print Assumptions source_set_input_guards_are_model_guards.
